@@ -42,6 +42,10 @@ def generate(rng, opts):
         # tuples somewhere: the slices will use positional keys ("0", "1"), which also select a field of a *named* record
         # by position - that does depend on the order in which a generator returns the fields
         lg.drop_reordered(lazy)
+    if lazy["k"] == "virtual" and declare_length and n > 0 and not lazy.get("reordered") and r.random() < 0.06:
+        # the outermost generator always produces more than it declares (declared 0 .. n-1 items): the array is what
+        # was declared, from the first read on
+        lazy["declared_shorter"] = r.choice([0, 0, n - 1, r.randrange(n)])
     keys = lg.virtual_keys(lazy)
     policy = r.choice(POLICIES)
     cache = {"policy": policy, "get": [], "set": []}
@@ -80,7 +84,7 @@ def generate(rng, opts):
         ev = {"e": "op", "slot": slot, "op": O.gen_op(r, inf, nslots, enabled)}
         if r.random() < p_fault and keys:
             kinds = ["throw"]
-            if declare_length:
+            if declare_length and lazy.get("declared_shorter") is None:
                 kinds.append("short")
                 kinds.append("long")
                 if not declare_form:
@@ -195,6 +199,10 @@ def execute(node, case, rec, opts):
     got = read_value(node, eager)
     if not vm.same(got, want):
         raise RuntimeError("walker and layout_gen disagree on the truth")
+    if case["lazy"].get("declared_shorter") is not None:
+        want = want[:case["lazy"]["declared_shorter"]]
+        eager = node.op(28, eager, iargs=[0, case["lazy"]["declared_shorter"]])
+        rec.fault("generator_always_produces_more_than_declared")
     rz = lg.Realized()
     pol = case["cache"]["policy"]
     if pol != "none":
